@@ -167,7 +167,16 @@ async def run_scenario(sc):
               elif op == "multigetnext":
                   r = await c.multigetnext(oids)
               elif op == "set":
-                  r = await c.set(oids[0], mk_x690(sc["setvals"][0]))
+                  val = mk_x690(sc["setvals"][0])
+                  if sc.get("fromget"):
+                      # the value written is an object the client handed out earlier (read from one object, written to another)
+                      events_backup = list(events)
+                      val = await c.get(OID(oidstr(conc(sc["db"][0][0]))))
+                      del events[:]
+                      events.extend(events_backup)
+                      events[-1]["vals"] = [abs_x690(val)]
+                      ag.nreq = 0
+                  r = await c.set(oids[0], val)
               elif op == "multiset":
                   r = await c.multiset({o: mk_x690(v) for o, v in zip(oids, sc["setvals"])})
               elif op == "bulkget":
